@@ -9,17 +9,17 @@ PROOF_NOTE = ("Trusted: Coq 8.16.1 kernel + vm_compute (no native_compute); no a
 LEVELS = json.load(open(os.path.join(ROOT, "levels.json")))
 TEXT = {
  "C01": "arith_pointwise / negate_pointwise: for every ordered domain, every well-formed internal state (either or both internal forms), scalars on either side: both one-sided limits of the result equal the pointwise operation (None iff an argument is None or x/0).",
- "C02": "layer histories: model of scalar/vector layering on step changes (incl. the repaired cancel-to-step-free, NaN-receiver and values-only cases); theorems pending, decided so far by correspondence (model vs implementation) + rational oracle on 2-call exhaustive-scope samples and random histories.",
+ "C02": "layer_adds_its_triples, layer_history (any finite history, scalar and vector calls, receivers with undefined regions, either internal form), layer_order_irrelevant, scalar_and_vector_forms_agree. Argument routes (Series with any index, frames, padding of shorter vectors) and 'layer returns the receiver' are Python glue covered by the correspondence flavours.",
  "C03": "limit_is_lim, lim_is_one_sided_limit (dense domains), limits coincide off step points, views_agree, changes_sum_to_values.",
  "C04": "rel_pointwise + rel_indicator + rel_result_minimal; follow-up operations are exercised by the correspondence programs.",
  "C05": "logic_pointwise + truth table + invert/make_boolean theorems, incl. the repaired scalar short-cuts.",
- "C06": "clip/mask/where/isna/notna: model with bisect slicing and the {NaN,0} masker; theorems pending; correspondence + oracle.",
- "C07": "fillna scalar / method / function: model incl. the repaired function filler; theorems pending; correspondence + oracle.",
+ "C06": "clip_restricts_exactly (bisect/iloc model proved against the window predicate on both limits), mask_where_pointwise, where_tuple_is_clip, mask_tuple_masks_the_interval, isna_notna_indicators.",
+ "C07": "fillna_scalar_pointwise, fillna_function_pointwise (the repaired fillna(0) + g.fillna(0)*isna pipeline), ffill_fills_from_the_left, bfill_fills_from_the_right (defined points unchanged; undefined points take the last / next defined value).",
  "C08": "value_sums, integral, mean, var (through the percentile pipeline as the code does): theorems pending; correspondence + oracle (exact on dyadic data, 1e-9 otherwise).",
  "C09": "ecdf, percentile, fractile, median, mode, hist, describe: theorems pending; correspondence + oracle on power-of-two totals (exact) and general totals (tolerant).",
  "C10": "values_in_range/min/max with the 4x2 bisect-side table: theorems pending; correspondence + oracle with endpoints on every step point for all 8 rows.",
  "C11": "slicer statistics and resample (repaired): theorems pending; correspondence + oracle.",
- "C12": "minimality of every result (raw step tables compared), identical(), identities, bool: rr_minimal and per-operator minimal theorems exist; canonical/identical theorems pending.",
+ "C12": "every_operation_returns_a_minimal_result, minimal_form_is_canonical, identical_decides_equality (iff), bool_is_true_exactly_for_the_constant_one, algebraic_identities_up_to_identical (7 identities). Minimality of scalar-path layering results is covered by the correspondence (raw step tables compared) rather than by a theorem.",
  "C13": "mutate-then-observe programs + object identity check; functional model (no sharing by construction): partial.",
  "C14": "model objects carry the two caches; histories of layer calls and queries; invariant theorem pending.",
  "C15": "complete shape x side grid; closed rule and mismatch_iff proved for the binary operators (binop_api_err, spec2 closed component); remaining operations by correspondence.",
